@@ -15,7 +15,8 @@ RULE = ("all commit DAGs with <=3 (quick) / <=4 (thorough) commits (parents amon
         "real SQLite index with the fake git; end-to-end through `cond where`, `cond run` (spawned vs cached) and the COND_DEPS of a "
         "dependent for <=3 commits x <=2 versions; oracle = the documented rule (ref.select_version / at_least_rerun). states = "
         "distinct (DAG, HEAD, mode, version-sequence) selection states; transitions = selections/flag evaluations performed; "
-        "traces validated = fake-git answers compared with real git 2.39 on real repositories built with commit-tree")
+        "traces validated = fake-git answers compared with real git 2.39 on real repositories built with commit-tree"
+        ' --at-least is passed as hash and as ref name; rows are inserted in both timestamp orders; and the whole selection (conductor.lib.path.where) is additionally run on REAL git repositories for every DAG with <=4 commits (HEAD x version sequences <=2), so any change in how git is queried is judged by real git.')
 ASSUMPTIONS = [
     "fake git is bound to real git by the conformance items of this check (all DAGs, all ordered pairs, unknown hash, no commits, no repository)",
     "versions have pairwise distinct timestamps (primary key of the index)",
@@ -149,14 +150,19 @@ def _select(item, res, viol):
                 res["transitions"] += 1
                 res["states"].add(explore.sig([item["dag"], mode, head, versions, rev]))
                 want = ref.select_version(versions, "git" if mode == "git" else "nogit", commits, hname(head))
-                t = fresh_task()
-                run0 = t.should_run(ctx, None)
-                p = fresh_task().get_output_path(ctx)
+                art = {"kind": "select", "dag": item["dag"], "versions": versions, "mode": mode, "head": head, "reversed_insertion": rev}
+                try:
+                    t = fresh_task()
+                    run0 = t.should_run(ctx, None)
+                    p = fresh_task().get_output_path(ctx)
+                except Exception as ex:  # noqa
+                    viol("select:internal-error:%s" % type(ex).__name__, "mode %s HEAD %s versions %s: selection raised %s: %s"
+                         % (mode, head, _pv(versions), type(ex).__name__, ex), art)
+                    continue
                 got = None
                 if p is not None:
                     ts = int(p.name.rsplit(".", 1)[1])
                     got = [v for v in versions if v[0] == ts][0]
-                art = {"kind": "select", "dag": item["dag"], "versions": versions, "mode": mode, "head": head, "reversed_insertion": rev}
                 if versions:
                     res["sigs"].add(explore.sig([item["dag"], mode, head, versions, rev]))
                 if got != want or run0 != (want is None):
@@ -169,7 +175,11 @@ def _select(item, res, viol):
                             continue  # rejected by the CLI before planning (checked end-to-end)
                         res["transitions"] += 1
                         wantrun = ref.at_least_rerun(want, commits, hname(c))
-                        gotrun = fresh_task().should_run(ctx, hname(c))
+                        try:
+                            gotrun = fresh_task().should_run(ctx, hname(c))
+                        except Exception as ex:  # noqa
+                            viol("atleast:internal-error:%s" % type(ex).__name__, "--at-least %s raised %s: %s" % (c, type(ex).__name__, ex), dict(art, at_least=c))
+                            continue
                         if wantrun != gotrun:
                             viol("atleast:%s" % ("reruns-needlessly" if gotrun else "fails-to-rerun"),
                                  "HEAD %s versions %s --at-least %s: should_run=%s, rule says %s (selected %s)"
@@ -353,9 +363,14 @@ def _gitconf_inner(item, res, viol):
         fake = fakegit.FakeGit(commits=commits, head=hashes[head], is_repo=True, dirty=False)
 
         def both(fn):
-            a = fn(real)
+            def safe(g):
+                try:
+                    return fn(g)
+                except Exception as ex:  # noqa - compared as a value: real and fake must fail alike
+                    return "raises:%s" % type(ex).__name__
+            a = safe(real)
             with driver.patched([(m["cgit"], "subprocess", vkmod.Facade(subprocess, {"run": fake.run}))]):
-                b = fn(Git(pathlib.Path(root)))
+                b = safe(Git(pathlib.Path(root)))
             return a, b
 
         queries = [("is_used", lambda g: g.is_used()),
@@ -380,7 +395,11 @@ def _gitconf_inner(item, res, viol):
         for a in hashes:
             for b in hashes:
                 want_anc = b in ref.reach(commits, a)
-                if real.is_ancestor(a, b) != want_anc:
+                try:
+                    real_anc = real.is_ancestor(a, b)
+                except Exception as ex:  # noqa
+                    real_anc = "raises:%s" % type(ex).__name__
+                if real_anc != want_anc:
                     viol("gitconf:reference-ancestor", "reference ancestor relation disagrees with real git", {"kind": "gitconf", "dag": item["dag"]})
                 if _dist(real, a, b) != len(ref.reach(commits, a) - ref.reach(commits, b)):
                     viol("gitconf:reference-distance", "reference distance disagrees with real git", {"kind": "gitconf", "dag": item["dag"]})
@@ -482,9 +501,14 @@ def _gitconf_special_inner(res, viol):
                        ("is_ancestor", lambda g: g.is_ancestor("a" * 40, "b" * 40))):
             res["evals"] += 1
             res["transitions"] += 1
-            a = fn(real)
+            def safe(g):
+                try:
+                    return fn(g)
+                except Exception as ex:  # noqa
+                    return "raises:%s" % type(ex).__name__
+            a = safe(real)
             with driver.patched([(m["cgit"], "subprocess", vkmod.Facade(subprocess, {"run": fake.run}))]):
-                b = fn(Git(rr))
+                b = safe(Git(rr))
             res["traces_validated"] += 1
             if a != b:
                 viol("gitconf:%s:%s" % (name, qn), "real git -> %r, fake git -> %r (%s)" % (a, b, name), {"kind": "gitconf-special"})
